@@ -116,7 +116,7 @@ def handler_request(ctx, job):
     """one request through the real handle_cmd_ctx (async handlers polled to completion): no panic, every loop bounded
     by the request, and the request is answered"""
     from props import executor as X
-    def setup(e): e.loop_budget = 64; e.sleep_budget = 16
+    def setup(e): e.loop_budget = 64; e.sleep_budget = 64
     def run(e):
         h, mgr, redis = X.make_handler(e, 'Disabled', AnyRedis(), active_redirection=job.get('active', False))
         elems = []; syms = {}
